@@ -69,7 +69,7 @@ PROPS["C17"] = {
              "names that begin with a built-in attribute name) checked by write->parse->compare->write, by hand-serialised text with shuffled "
              "attribute order / name case / spacing, Cookie headers of 0-8 pairs (repeated names, equal and different values) into a jar via "
              "addFromRaw and add, and mutated cookie strings (byte edits, truncation after = ; and attribute names, absurd Max-Age / Expires). "
-             "Non-trivial = >=3 attributes or >=2 extension attributes, a jar with a repeated name or >=3 pairs, any mutated string. Distinct = hash of the text. One case in four (by a hash of its bytes) runs with the process's global C++ locale set to one that groups digits (classic + numpunct grouping 3): protocol text must not change. A jar is also walked with 'cur = it++; use(*cur)': the iterator post-increment returns must be the position it left."),
+             "Non-trivial = >=3 attributes or >=2 extension attributes, a jar with a repeated name or >=3 pairs, any mutated string. Distinct = hash of the text. One case in four (by a hash of its bytes) runs with the process's global C++ locale set to one that groups digits (classic + numpunct grouping 3): protocol text must not change. A jar is also walked with 'cur = it++; use(*cur)': the iterator post-increment returns must be the position it left. When a cookie has an expiry, the same instant may be written through FullDate::write in RFC 850 or asctime form just before the cookie is written."),
     "engine": "rapidcheck+libFuzzer",
     "technique": "property-based testing (rapidcheck) and libFuzzer: generated-cookie round trip compared field by field, jar contents vs the generated pair set, exactly-once iteration, parse-or-std::exception for mutants under ASan/UBSan with a guard-page buffer",
     "level_text": "Generated-input search whose oracle is the generated cookie / pair list (independent of the parser). Exploration only.",
@@ -89,7 +89,7 @@ PROPS["C16"] = {
              "constructors), Location, Server, User-Agent, Access-Control-*, Expect - checked write->Header::parse->compare->write and write->request "
              "through RequestParser->tryGet<H>->compare; (b) a request with 1-12 header lines (registered and unknown names in random capitalisation, "
              "duplicates, values over VCHAR/SP/HTAB/obs-text incl. empty, 0-3 spaces after the colon) and lookups under three capitalisations. "
-             "Non-trivial = list with >=2 elements / boundary value / Date / Host without port or IPv6 / every lookup case; distinct = hash of the written text or message. One case in four (by a hash of its bytes) runs with the process's global C++ locale set to one that groups digits (classic + numpunct grouping 3): protocol text must not change. Registered headers are also fetched through the throwing get(name), and list() must hold exactly the registered names sent."),
+             "Non-trivial = list with >=2 elements / boundary value / Date / Host without port or IPv6 / every lookup case; distinct = hash of the written text or message. One case in four (by a hash of its bytes) runs with the process's global C++ locale set to one that groups digits (classic + numpunct grouping 3): protocol text must not change. Registered headers are also fetched through the throwing get(name), and list() must hold exactly the registered names sent. Sibling names (^ vs ~) carry the character anywhere in the name, also in long names."),
     "engine": "rapidcheck+libFuzzer",
     "technique": "property-based testing (rapidcheck) and libFuzzer: generated-value round trip by two routes (Header::parse and through the request parser) and a first-occurrence / any-capitalisation lookup model",
     "level_text": "Generated-input search whose oracle is the generated value and the generated header list. Exploration only.",
@@ -169,7 +169,7 @@ PROPS["C10"] = {
              "followed by 1-30 queries (method x path of 0-5 segments over {a,b,c,d} with random extra slashes) routed through Rest::Router::route. Reference model: list of live patterns, "
              "naive matcher, winner = lexicographic minimum of the per-segment class vector fixed<parameter<optional<wildcard (ties accepted either way and counted), bindings in order; "
              "no match under the method -> NotAllowed iff the model matches under another method, else NotFound / not-found handler exactly once. Non-trivial = >=2 patterns match one query, "
-             "or a 405 case, or the history contains a remove; distinct = hash of (history, queries). oracle_subchecks = queries routed. Each route is registered through one of the three public doors (Router::addRoute, the per-method members get/post/put/del/head, the free functions Rest::Routes::Get ...) and removed through removeRoute or Routes::Remove, by the route's id and text."),
+             "or a 405 case, or the history contains a remove; distinct = hash of (history, queries). oracle_subchecks = queries routed. Each route is registered through one of the three public doors (Router::addRoute, the per-method members get/post/put/del/head, the free functions Rest::Routes::Get ...) and removed through removeRoute or Routes::Remove, by the route's id and text. A third of the route handlers return Route::Result::Failure: still exactly one handler runs."),
     "engine": "rapidcheck+libFuzzer",
     "technique": "model-based property testing (rapidcheck, libFuzzer on the same case function): add/remove histories and queries against a naive reference router with an explicit precedence order",
     "level_text": "Model-based generated-history search; the reference matcher shares no code with the segment tree. Exploration only. The Allow header's method set is checked on the wire by the C09 harness (in-process the response writer has no transport).",
@@ -189,7 +189,7 @@ PROPS["C11"] = {
              "base or late promise with a value or exception e_i. Attach and settle interleave freely. A reference interpreter gives each continuation a verdict (runs exactly once with v / "
              "with e / must not run / unspecified downstream of a swallowed rejection or of a void-returning continuation) and run counts, values and exception identities are compared after "
              "every operation; an exception escaping a settle/attach call is a failure. Non-trivial = chain length >=2 or a combinator, with >=1 continuation attached before and >=1 after "
-             "settlement; distinct = hash of the program text."),
+             "settlement; distinct = hash of the program text. Every case also runs a forgotten chain: source.then(A -> pending promise).then(B, Throw).then(C, rejC) with neither the source nor the derived promises kept; settling the promise A returned must reach B and C (or rejC, same exception) exactly once."),
     "engine": "rapidcheck+libFuzzer",
     "technique": "model-based (stateful) property testing with rapidcheck and libFuzzer: generated promise programs run against a reference interpreter of the stated semantics; invariants checked after every step; the whole program shrinks as one value",
     "level_text": "Generated programs against a reference interpreter written from the statement. Exploration only; single-threaded (interleavings are C12).",
@@ -336,7 +336,7 @@ PROPS["C14"] = {
              ">=1 s before or lasting >=1 s beyond the applicable time-out: min(header,body) in the head phase, body in the body phase, counted from connect). Oracle: total<=L -> first response "
              "200 and the handler ran for that tag; total>L -> first response 413 and the handler never ran; in-time -> 200 never 408; past -> 408 then EOF within deadline+1.6 s and the handler "
              "never ran. Non-trivial = size within +-1 of L with >=2 writes, or a body stall longer than the header time-out but inside the body time-out, or a 408 case with header != body "
-             "time-out; distinct = hash of the configuration and scripts. oracle_subchecks = scripts run. Keep-alive scripts: a connection that lives 2.2 x the head deadline with a quick request every 0.4 x deadline (each request's clock starts when its predecessor was completed: all 200), and a second request that stalls in its head (408 counted from the completion of the first)."),
+             "time-out; distinct = hash of the configuration and scripts. oracle_subchecks = scripts run. Keep-alive scripts: a connection that lives 2.2 x the head deadline with a quick request every 0.4 x deadline (each request's clock starts when its predecessor was completed: all 200), and a second request that stalls in its head (408 counted from the completion of the first). A keep-alive connection whose first request is handled for 1.7 s and whose second request pauses (deadline - 1.1 s) in its head must get 200: a handler's time is not charged to the next request."),
     "engine": "rapidcheck",
     "technique": "property-based testing (rapidcheck) with fault placement: generated configurations x scripted connections (byte-exact sizes around the limit, stalls placed on either side of the applicable time-out) against a live endpoint",
     "level_text": "Fault (stall) placements and boundary sizes are generated and enumerated around each configured limit against the real server. Sizes are exact in bytes; time-outs are judged only outside a +-1 s window because the implementation samples the clock every 500 ms by design.",
@@ -378,7 +378,7 @@ PROPS["C06"] = {
              "the successive socket write calls on that connection a generated sequence over {pass, accept at most k bytes, would-block (in runs)} applied through the send/sendfile hooks. A raw "
              "client reads the stream. Oracle: the stream is exactly the concatenation of the buffers in issue order (for two issuers: an interleaving of whole buffers preserving each issuer's "
              "order); each promise settles at most once, is fulfilled with the buffer's full size, not before the socket had accepted its last byte, and all are fulfilled in the end. "
-             "Non-trivial = >=2 writes and the script contained a short write followed later by a would-block; distinct = hash of the case. One loop-thread case in three is a chain: write i+1 is issued from the continuation of write i's promise and followed by Transport::flush()."),
+             "Non-trivial = >=2 writes and the script contained a short write followed later by a would-block; distinct = hash of the case. One loop-thread case in three is a chain: write i+1 is issued from the continuation of write i's promise and followed by Transport::flush(). Stage c06_coincide.cc: through the recv hook the single worker is held after it has read a connection's first bytes (a complete request, or a request line / head that makes a 400 due) and again while it reads another connection's request; the first connection's further bytes (the beginning of its next request, the rest of the malformed one, an empty line) arrive meanwhile, so that the kernel reports it readable and writable in one event: the response due must still arrive within 2 s. Non-trivial there = the further bytes arrive during the second hold."),
     "engine": "rapidcheck",
     "technique": "property-based testing (rapidcheck) with injected faults: generated write lists x generated short-write / would-block scripts applied through a guarded socket-call indirection; oracle = byte-exact stream reconstruction and promise accounting",
     "level_text": "Placements of short writes and would-block results over the successive socket calls are generated per case and applied to the real transport on a live connection. Not exhaustive: placements are sampled.",
